@@ -142,6 +142,7 @@ func hotpSuspects(r *ev.Run) {
 func c03(r *ev.Run, pairMode bool) {
 	installFuse()
 	defer hotpSuspects(r)
+	r.OnWedge(func() { hotpSuspects(r) })
 	scen := "hotp-validate"
 	r.Scenario(scen, func(raw []byte) (string, string) {
 		c := unjson[c03Case](raw)
